@@ -4,8 +4,16 @@ import struct
 import canon
 
 
+WARN_SPELLINGS = ['none', 'likely', 'all', True, False, 'enum:NONE', 'enum:LIKELY', 'enum:ALL', 'default']
+
+
+def decoder_options(rng):
+    """Constructor options that must not influence which messages are returned (the property's scan has no such parameter)."""
+    return {'warn_on_error': rng.choice(WARN_SPELLINGS), 'warn_on_unrecognized': rng.random() < 0.5, 'warn_on_gap': rng.random() < 0.5}
+
+
 def run_decoder(chunks, max_payload, return_bytes=True, return_offset=True, use_callback=False, as_ints=False, typed_callbacks=None,
-                form='bytes'):
+                form='bytes', opts=None):
     """Returns (per-call canonical strings, flat list of result dicts, error or None).
     as_ints: single-byte chunks are passed as `int` (the documented alternative input form).
     typed_callbacks: dict type -> list, filled by callbacks registered for that specific message type.
@@ -13,8 +21,18 @@ def run_decoder(chunks, max_payload, return_bytes=True, return_offset=True, use_
     the call; 'ba_reuse' = one receive bytearray refilled in place for every call (the decoder must have copied what it keeps)."""
     from fusion_engine_client.parsers.decoder import FusionEngineDecoder
     from fusion_engine_client.messages import MessageHeader
+    import logging
+    logging.disable(logging.CRITICAL)       # the warnings themselves are not observed; their side effects on decoding are
+    kw = {'warn_on_error': 'none'}
+    if opts:
+        w = opts.get('warn_on_error', 'none')
+        if isinstance(w, str) and w.startswith('enum:'):
+            w = FusionEngineDecoder.WarnOnError[w[5:]]
+        kw = {'warn_on_unrecognized': bool(opts.get('warn_on_unrecognized')), 'warn_on_gap': bool(opts.get('warn_on_gap'))}
+        if w != 'default':
+            kw['warn_on_error'] = w
     dec = FusionEngineDecoder(max_payload_len_bytes=max_payload, return_bytes=return_bytes,
-                              return_offset=return_offset, warn_on_error='none')
+                              return_offset=return_offset, **kw)
     cb = []
     if use_callback:
         dec.add_callback(None, lambda *a: cb.append(a))
